@@ -199,6 +199,9 @@ class DefRuntime:
         v = {"inv": self._ords(getattr(cls, "__invariants__", [])),
              "oncall": self._ords(getattr(cls, "__invariants_on_call__", [])),
              "onset": self._ords(getattr(cls, "__invariants_on_setattr__", [])),
+             # the documented way: filter the public list by the event (tests/test_for_integrators.py)
+             "doc_oncall": self._ords([i for i in getattr(cls, "__invariants__", [])
+                                       if ic.InvariantCheckEvent.CALL in i.check_on]),
              "members": {}}  # type: Dict[str, Any]
         for name in self.hist["names"]:
             kind, fn = self.member_fn(cls, name)
@@ -285,7 +288,8 @@ def normalise_model_view(v: dict, names: List[str]) -> dict:
         else:
             mem[name] = {"kind": m["kind"], "pre": [list(g) for g in m["pre"]], "snap": list(m["snap"]),
                          "post": list(m["post"]), "invw": bool(m["invw"]), "nchk": m["nchk"], "nfor": m["nfor"]}
-    return {"inv": list(v["inv"]), "oncall": list(v["oncall"]), "onset": list(v["onset"]), "members": mem}
+    return {"inv": list(v["inv"]), "oncall": list(v["oncall"]), "onset": list(v["onset"]),
+            "doc_oncall": list(v["oncall"]), "members": mem}
 
 
 def replay_history(hist: dict, expected: Dict[int, dict], ic: Any) -> List[dict]:
